@@ -111,6 +111,11 @@ def run(ctx: Ctx, replay: str | None) -> None:
     if replay:
         rec = json.load(open(replay))
         p = rec["payload"]
+        if p.get("fn") == "hostile":
+            from .c05 import hostile_cases
+            hostile_cases(ctx)
+            ctx.violations = [v for v in ctx.violations if v["key"] == rec["key"]]
+            return
         r = replay_one((p["scenario"], p.get("seed", ctx.seed), p.get("idx", 0), True))
         for f in r["fails"]:
             ctx.violation(rec["key"], f["what"], p)
@@ -164,6 +169,11 @@ def run(ctx: Ctx, replay: str | None) -> None:
     for s in scns[:2] + scns[len(scns) // 2: len(scns) // 2 + 2]:
         ctx.sample({"prog": s["prog"], "tensors": s["tensors"], "inputs": s["inputs"], "k": s["k"],
                     "w": s["w"], "expected": s["expected"]})
+
+    # computations that torch.vmap cannot batch are differentiable computations too: where differentiation is
+    # sequential by contract (one row, or parallel_chunk_size=1) the update is the one torch.autograd leaves
+    from .c05 import hostile_cases
+    hostile_cases(ctx)
 
     # implementation-shaped layer bound to the code (DRIFT only): stage-by-stage dictionaries
     from ..stage_trace import validate_impl_layer
